@@ -350,6 +350,9 @@ class Table(JupyterMixin):
             ratio=ratio,
             no_wrap=no_wrap,
         )
+        # rows that exist already get a blank cell (as when add_row creates a column)
+        for _ in self.rows:
+            column._cells.append(Text(""))
         self.columns.append(column)
 
     def add_row(
